@@ -264,6 +264,14 @@ func (c *Conn) Write(p []byte) (int, error) {
 	if len(p) > 0 {
 		vsched.RaceReadRange(unsafe.Pointer(&p[0]), len(p))
 	}
+	// what a thread puts on the wire is part of its fingerprint: two schedules
+	// that send different bytes must never be merged by state caching, even if
+	// the difference comes from a plain-memory race the scheduler cannot see
+	wh := uint64(len(p)) + 11
+	for _, b := range p {
+		wh = (wh ^ uint64(b)) * 1099511628211
+	}
+	vsched.Observe(wh)
 	vsched.RaceReleaseMerge(unsafe.Pointer(c.ioSync))
 	for {
 		vsched.Do(&vsched.Op{Kind: vsched.KWrite, Obj: &c.out.obj, Write: true,
